@@ -63,6 +63,9 @@ def gen_cases(tier, seed):
             o["skip_time"] = 0.1 * o["solve_time"]
         if k % 8 == 5:
             case["solve_twice"] = True  # one TDGLSolver object, solve() called twice
+        if drive["currents"].get("kind") == "switch" and len(dev["terminals"]) >= 3:
+            # terminals that carry no current in a phase are simply not named by the function in that phase
+            drive["currents"]["phases"] = [{nm: v for nm, v in ph.items() if v != 0.0} for ph in drive["currents"]["phases"]]
         if drive["currents"].get("kind") in ("callable", "pulse", "switch"):
             drive["currents"]["form"] = ["function", "partial", "method", "object"][(k // 2) % 4]  # every kind of callable is a callable
         if k % 8 in (1, 6) and not case.get("remesh"):
@@ -77,6 +80,8 @@ def gen_cases(tier, seed):
         o = S.base_options(rng, adaptive=bool(k % 2), steps=60)
         o["terminal_psi"] = 0.0
         drive = {"A": {"kind": "zero"}, "currents": S.current_spec(rng, dev, o, ["stair", "const", "switch"][k % 3], strength=float([1e-6, 1e-9, 1e-7][k % 3]))}
+        if k % 3 == 2:
+            drive["currents"]["phases"] = [{nm: v for nm, v in ph.items() if v != 0.0} for ph in drive["currents"]["phases"]]  # unnamed = no current
         cases.append({"device": dev, "options": o, "drive": drive, "monitors": ["charge"], "weak": True, "cost": 8})
     return cases
 
